@@ -71,23 +71,14 @@ let run_converted line =
          let dl = str_lines (match utf8_decode (bytes_of_hex conv) with Some t -> t | None -> []) in
          let suffix = if from_cram then gen_config_suffix (cfg_of_tcfg tc_default_cram) (cfg_of_tcfg tc_default_markdown) else [] in
          let crlf_matters = ref false in
-         let one (title, cmd, code, raw) =
-           (* a Markdown test translates CR LF before the output is compared or written; a Cram test keeps it *)
-           let outb = if from_cram then raw else replace_crlf raw in
-           if outb <> raw then crlf_matters := true;
-           let lines = split_lines_keep outb in
-           let title = (match title with [] -> None | t -> Some t) in
-           let codeN = n_of_int code in
-           if from_cram then begin
-             let rendered = render_md (gen_md_doc md title cmd [] lines codeN) in
-             (* the header of the block: the fence line is the first line that consists of backticks and the language *)
-             let is_fence l = (let rec bt = function c :: r when int_of_n c = 96 -> bt r | r -> r in
-                               match l with c :: _ when int_of_n c = 96 -> bt l = List.map (fun c -> n_of_int (Char.code c)) (List.of_seq (String.to_seq "scrut")) | _ -> false) in
-             let seen = ref false in
-             List.map (fun l -> if (not !seen) && is_fence l then (seen := true; l @ suffix) else l) rendered
-           end else render_cram (gen_cram_doc md title cmd [] lines codeN) in
-         let rec join = function [] -> [] | [d] -> d | d :: r -> d @ [[]; []] @ join r in
-         let model = join (List.map one ts) in
+         (* the model's document of several tests (C09_cram_tests_read_back / C09_markdown_tests_read_back) *)
+         let gtests = List.map (fun (title, cmd, code, raw) ->
+             (* a Markdown test translates CR LF before the output is compared or written; a Cram test keeps it *)
+             let outb = if from_cram then raw else replace_crlf raw in
+             if outb <> raw then crlf_matters := true;
+             { g_title = (match title with [] -> None | t -> Some t); g_cmd = cmd; g_conts = []; g_lines = split_lines_keep outb; g_code = n_of_int code }) ts in
+         let cfg = (match suffix with _ :: _ :: r -> (match List.rev r with _ :: m -> Some (List.rev m) | [] -> None) | _ -> None) in
+         let model = if from_cram then render_md (gen_md_docs md cfg gtests) else render_cram (gen_cram_docs md gtests) in
          if model <> dl then report "DIFF:generated-document" "the document `scrut update --convert` wrote is not the model's rendering of the tests in the other format" line;
          let first_gt = List.exists (fun (_, _, _, raw) -> match split_lines_keep raw with l :: _ -> starts_with_str l "> " | [] -> false) ts in
          let dollar = (not from_cram) && List.exists (fun (_, _, _, raw) -> List.exists (fun l -> starts_with_str l "$ ") (split_lines_keep raw)) ts in
